@@ -29,6 +29,7 @@ type CapSpec struct {
 	FeasMs      int     `json:"feas_ms,omitempty"`
 	NoMerge     bool    `json:"nomerge,omitempty"`
 	Concretize  int     `json:"concretize,omitempty"`
+	Live        string  `json:"live,omitempty"` // live solver: z3 (default) | cvc5 | z3-new
 }
 
 type TierSpec struct {
@@ -158,6 +159,9 @@ func mergeCaps(base CapSpec, o *CapSpec) CapSpec {
 	if o.Concretize != 0 {
 		base.Concretize = o.Concretize
 	}
+	if o.Live != "" {
+		base.Live = o.Live
+	}
 	base.NoMerge = base.NoMerge || o.NoMerge
 	return base
 }
@@ -187,6 +191,7 @@ func capsToConfig(c CapSpec, cs map[string]int) Config {
 		cfg.MaxConcretize = c.Concretize
 	}
 	cfg.NoMerge = c.NoMerge
+	cfg.Live = c.Live
 	return cfg
 }
 
@@ -535,7 +540,7 @@ func cmdRun(args []string) int {
 		used := false
 		for _, u := range spec.Units {
 			for _, id := range u.Findings {
-				if id == f.ID {
+				if strings.SplitN(id, ":", 2)[0] == f.ID {
 					used = true
 				}
 			}
@@ -560,9 +565,7 @@ func cmdRun(args []string) int {
 			lf.note = "witness no longer violates (native outcome " + outs[0].Outcome + "): class exclusion dropped"
 		}
 		if lf.live {
-			if f.Param != "" {
-				exclude[f.Param] = true
-			}
+			exclude[f.ID] = true
 			if mine {
 				knownLines = append(knownLines, fmt.Sprintf("KNOWN-FINDING: property=%s %s [%s]", prop, f.What, f.ID))
 			}
@@ -591,15 +594,16 @@ func cmdRun(args []string) int {
 			for k, v := range c {
 				cc[k] = v
 			}
-			for _, id := range u.Findings {
-				for _, f := range ff.Findings {
-					if f.ID == id && f.Param != "" {
-						if exclude[f.Param] {
-							cc[f.Param] = 1
-						} else {
-							cc[f.Param] = 0
-						}
-					}
+			for _, idp := range u.Findings {
+				// "ID:param": the case parameter is 1 while the listed finding is
+				// open and its witness still violates, else 0 (full search)
+				parts := strings.SplitN(idp, ":", 2)
+				if len(parts) != 2 {
+					continue
+				}
+				cc[parts[1]] = 0
+				if exclude[parts[0]] {
+					cc[parts[1]] = 1
 				}
 			}
 			key := caseString(cc)
